@@ -76,6 +76,13 @@ class Row(tuple):
         return 'Row(%s)' % ', '.join(map(repr, self))
 
 
+class Sep:
+    """its printer returns ONE prebuilt document shared by all prints (as the package does for None / Ellipsis):
+    kind 0 holds a forced break directly inside a concat, kind 1 a group with break opportunities"""
+    def __init__(self, kind=0):
+        self.kind = kind
+
+
 class Weird:
     """repr is not an expression: a struct sequence holding one cannot have its field names
     recovered from its repr"""
@@ -89,7 +96,7 @@ class Shade(enum.Enum):
 
 
 Point = collections.namedtuple('Point', ['x', 'y'])
-for _c in (LazyA, LazyB, Eager, Shade, Point, Weird, ReBase, ReSub, Tagged, TaggedSub, Row):
+for _c in (LazyA, LazyB, Eager, Shade, Point, Weird, ReBase, ReSub, Tagged, TaggedSub, Row, Sep):
     _c.__module__ = 'c19corpus'
 
 
@@ -111,6 +118,14 @@ def register():
     @register_pretty('c19corpus.ReBase')
     def _pr2(value, ctx):
         return pretty_call(ctx, type(value), 'second', value.x)
+
+    from prettyprinter.doc import concat, always_break, nest, HARDLINE, group, LINE
+    sep_doc = concat(['Separator(', always_break(nest(4, concat([HARDLINE, '# ---- next section ----']))), HARDLINE, ')'])
+    row_doc = group(concat(['row(', nest(2, concat([LINE, 'a,', LINE, 'b'])), ')']))
+
+    @register_pretty(Sep)
+    def _psep(value, ctx):
+        return sep_doc if value.kind == 0 else row_doc
 
     @register_pretty(predicate=lambda v: isinstance(v, Tagged) and isinstance(v.n, int) and v.n > 10)
     def _pt_big(value, ctx):
@@ -202,6 +217,7 @@ def build():
         trailing_comment(Row((1, 2)), 'about the row'), [trailing_comment(Row(()), 'empty row'), 1],
         trailing_comment([1, 2], 'and more'), trailing_comment({1, 2}, 'a set'), {'k': trailing_comment((1, 2), 'rest elided')},
         trailing_comment({'a': 1}, 'a dict'),
+        [1, Sep(), 2], {'a': (Sep(),)}, [Sep(1), Sep(1)], (Sep(0), [Sep(1)]),
     ]
     for v in std:
         vals.append(('std', v))
